@@ -6,14 +6,31 @@ VERIF = os.path.dirname(HERE)
 
 CHECKS = {
  "C20": dict(
-   text="Lean 4 theorems over a model of the lifetime quantiser/codec and the hop-limit selection (all requested "
-        "lifetimes, all codes, all hop limits), tied to the code by differential correspondence through "
-        "LT.set_value_in_millis, the BasicHeader API and packets emitted by a real Router (thorough: exhaustive "
-        "0..7 000 000 ms).",
-   note="Trusted: Lean kernel (axioms propext/Classical.choice/Quot.sound only), the Python harness and oracle, "
-        "the float glue int(s*1000) is exercised not proved. Known finding C20-KF1 (>= 1 000 000 ms -> 0) is pinned "
-        "by the repo's own unit test.",
-   technique="Lean 4 proof (omega/decide) + differential correspondence, exhaustive in thorough tier",
+   text="Lean 4 theorems 'model meets Spec': the Spec (Geo/LTSpec.lean) is written from EN 302 636-4-1 9.6.4 / 10.3 and the "
+        "property text and uses no model function; proved for ALL inputs: the LT octet written for a requested (or MIB default) "
+        "lifetime is the one the property demands (does not exceed it, no representable lifetime that does not exceed it is "
+        "larger, non-zero from 50 ms) - for the repaired quantiser everywhere, for the code as it is below 1 000 000 ms "
+        "(known finding C20-KF1 = exactly the band above, proved reachable: itsGnMaxPacketLifetime is enforced nowhere); the "
+        "shift/mask decoder of all 256 LT octets reads the value of the standard's table; the remaining lifetime put into the "
+        "GN-DATA.indication never exceeds it (and loses < 1 s); the hop limits of the six source operations are the Spec's "
+        "(SHB/beacon 1, multi-hop RHL = MHL = requested-if-specified else itsGnDefaultHopLimit, LS default) under the stated "
+        "interface convention '0 and 1 mean not specified'; the receiver guard rejects exactly RHL > MHL, and on C04's "
+        "byte-level receive model such a frame changes no state and causes no action. Bridge: the AST-extracted "
+        "set_value_in_millis equals the model for all inputs (Props.C20Bridge; a dropped bridge is reported as "
+        "BRIDGE-DROPPED in the evidence). Tie: differential correspondence through LT.set_value_in_millis, the BasicHeader "
+        "API (integer and fractional ms), packets emitted by a real Router for every transport type incl. GUC released by "
+        "the location service and one secured SHB, all five indication sites x a sweep of LT octets, receiver guard pairs "
+        "(thorough: exhaustive 0..7 000 000 ms, all 256 octets, all hop limits).",
+   note="Trusted: Lean kernel (axioms propext/Classical.choice/Quot.sound only), the hand transcription of the standard into "
+        "LTSpec.lean and the Python oracle, the harness; the float glue int(s*1000) is exercised not proved. Modelled, not "
+        "verified: the hop-limit / lifetime SELECTION inside the Router (srcHops, srcLifetime, indRemainingS are hand-written "
+        "3-line models tied by correspondence on emitted bytes / indications only - no AST extraction); the hop guard for "
+        "secured frames (reached after the verify service); TSB multi-hop origination does not exist in the code "
+        "(NotImplementedError). Interface convention, not a finding: a multi-hop request cannot ask for hop limit 1 "
+        "(sent with itsGnDefaultHopLimit; the property text says so). Known finding C20-KF1 (>= 1 000 000 ms -> 0) is "
+        "pinned by the repo's own unit test.",
+   technique="Lean 4 proof (omega, decide +kernel over complete 256/64x4 tables) + AST-extraction bridge for the quantiser + "
+             "differential correspondence, exhaustive in thorough tier",
    design="8/C20"),
 }
 NOT_YET = {}
